@@ -31,4 +31,12 @@ if [ "$prop" = "C14" ]; then
   if [ $rc = 0 ] && [ $rc2 = 0 ]; then exit 0; fi
   exit 2
 fi
+if [ "$prop" = "C09" ]; then
+  "$bin/archesim" run -prop "$prop" "${common[@]}" -bins "$bins" -level "$level" -known "$root/known_findings.json"; rc=$?
+  # generic structural entry points on a locked world (MapN / Map / Exchange, all arities), merged into the same evidence
+  "$bin/archesim" special C18 -prop C09 "${common[@]}"; rc2=$?
+  if [ $rc = 1 ] || [ $rc2 = 1 ]; then exit 1; fi
+  if [ $rc = 0 ] && [ $rc2 = 0 ]; then exit 0; fi
+  exit 2
+fi
 exec "$bin/archesim" run -prop "$prop" "${common[@]}" -bins "$bins" -level "$level" -known "$root/known_findings.json"
